@@ -323,6 +323,23 @@ pub fn tri_case() -> BoxedStrategy<TriCase> {
         .boxed()
 }
 
+/// Tall, narrow triangles: a few pixels wide, tens of thousands of rows high (a scanline count no buffer has, but
+/// tri_fill does not know about buffers).
+pub fn tall_case() -> BoxedStrategy<TriCase> {
+    let h = prop_oneof![2 => 2000.0f32..20000.0, 3 => 16000.0f32..40000.0, 1 => Just(16384.0f32), 1 => Just(32768.0f32)];
+    (h, screen_coord(16.0), screen_coord(16.0), screen_coord(16.0), 0.0f32..1.0, 0.0f32..64.0, any::<u8>(), 0u8..3)
+        .prop_map(|(h, x0, x1, x2, t, y0, k, shape)| {
+            let v = match shape {
+                0 => [[x0, y0], [x1, y0], [x2, y0 + h]],          // flat top
+                1 => [[x0, y0], [x1, y0 + h], [x2, y0 + h]],      // flat bottom
+                _ => [[x0, y0], [x1, y0 + h * t], [x2, y0 + h]],  // both halves tall (or one short)
+            };
+            let v = perm(v, k);
+            TriCase { shape: "tall".into(), v: v.map(|p| [X(p[0]), X(p[1])]) }
+        })
+        .boxed()
+}
+
 /// Tolerance band (px) as a function of the largest coordinate magnitude (DESIGN D-a).
 pub fn band_for(maxc: f64) -> f64 {
     if maxc <= 128.0 {
@@ -330,6 +347,20 @@ pub fn band_for(maxc: f64) -> f64 {
     } else {
         6.7e-8 * maxc * maxc
     }
+}
+
+/// The same band for a concrete triangle: the edge positions are stepped once per row, each step rounding to
+/// ulp(x)/2, so the error is also bounded by rows x ulp(largest |x|) (twice the worst case). For square-ish
+/// triangles this equals band_for(); for tall thin ones (20000 rows, 16 px wide) it is far tighter.
+pub fn band_tri(t: &[P2; 3]) -> f64 {
+    let maxc = t.iter().flatten().fold(0.0f64, |a, &b| a.max(b.abs()));
+    if maxc <= 128.0 {
+        return 0.001;
+    }
+    let xmax = t.iter().map(|p| p[0].abs()).fold(0.0f64, f64::max).max(1.0);
+    let rows = t.iter().map(|p| p[1]).fold(f64::MIN, f64::max) - t.iter().map(|p| p[1]).fold(f64::MAX, f64::min);
+    let ulp = 2f64.powi(xmax.log2().floor() as i32 - 23);
+    band_for(maxc).min(((rows + 2.0) * ulp).max(0.001))
 }
 
 pub fn shape_class(s: &str) -> &'static str {
@@ -343,6 +374,7 @@ pub fn shape_class(s: &str) -> &'static str {
         "coincident" => "shape:coincident",
         "one-row-half" => "shape:one-row-half",
         "ulp-flat" => "shape:ulp-flat",
+        "tall" => "shape:tall(>2000 rows)",
         _ => "shape:other",
     }
 }
@@ -359,7 +391,7 @@ pub fn check_random(c: &TriCase, obs: &mut Obs) -> Check {
     };
     let px = structure(&rows)?;
     let maxc = t.iter().flatten().fold(0.0f64, |a, &b| a.max(b));
-    let band = band_for(maxc);
+    let band = band_tri(&t);
     let minx = t.iter().map(|p| p[0]).fold(f64::INFINITY, f64::min).floor() as i64 - 1;
     let maxx = t.iter().map(|p| p[0]).fold(0.0, f64::max).ceil() as i64 + 1;
     let miny = t.iter().map(|p| p[1]).fold(f64::INFINITY, f64::min).floor() as i64 - 1;
@@ -553,6 +585,8 @@ pub fn run(cx: &mut Ctx) {
     cx.prop_check("random", n, tri_case, |c, obs| check_random(c, obs));
     let n = cx.n(60_000, 2_000_000);
     cx.prop_check("mesh", n, mesh_case, |c, obs| check_mesh(c, obs));
+    let n = cx.n(400, 10_000);
+    cx.prop_check("tall", n, tall_case, |c, obs| check_random(c, obs));
 }
 
 pub fn replay(sub: &str, case: &Value) -> Check {
@@ -562,7 +596,7 @@ pub fn replay(sub: &str, case: &Value) -> Check {
         let c: LatticeCase = serde_json::from_value(case.clone()).map_err(|e| Fail::new("bad-replay", e.to_string()))?;
         let ext = c.v.iter().flatten().max().copied().unwrap_or(0) / c.q + 1;
         check_lattice(&c, ext, &mut obs)
-    } else if sub == "random" {
+    } else if sub == "random" || sub == "tall" {
         let c: TriCase = serde_json::from_value(case.clone()).map_err(|e| Fail::new("bad-replay", e.to_string()))?;
         check_random(&c, &mut obs)
     } else if sub == "mesh" {
